@@ -890,7 +890,11 @@ func evalC20GCS(c c20GCS, o *Obs) error {
 var kC20GCS = register(&Kind[c20GCS]{
 	Prop: "C20", Name: "gcs",
 	Gen: func(t *rapid.T) c20GCS {
-		return c20GCS{D: genGCSData(t, 300), G: rapid.SampledFrom([]int{2, 8, 32}).Draw(t, "g"), Fresh: rapid.IntRange(0, 3).Draw(t, "fresh")}
+		d := genGCSData(t, 300)
+		if d.M == 0 {
+			d.M = 1
+		}
+		return c20GCS{D: d, G: rapid.SampledFrom([]int{2, 8, 32}).Draw(t, "g"), Fresh: rapid.IntRange(0, 3).Draw(t, "fresh")}
 	},
 	Eval: evalC20GCS,
 })
